@@ -190,6 +190,13 @@ func cgPath(w int) string {
 	if pal.Load() == palOdd {
 		return "/cg/" + whoName(w) + ":x=y z"
 	}
+	switch {
+	case w > 0 && w%3 == 1:
+		// the systemd cgroup driver's form: slice:prefix:name, no leading slash
+		return "nri.slice:" + whoName(w) + ":ctr"
+	case w > 0 && w%3 == 2:
+		return "cg/" + whoName(w) + "/../rel" // a relative, unclean cgroupfs path
+	}
 	return "/cg/" + whoName(w)
 }
 
